@@ -2034,8 +2034,12 @@ def r_scalar_dim_bipartite(ctx, f: FunctionInfo, rule="R-KIND", chain=None):
     different meaning whenever N happens to be a power of d."""
     def scalar_test(t):
         u = unparse(t).replace(" ", "")
-        return ("isinstance(dim,int" in u or "isinstance(dim,(int" in u or "isinstance(dim,float" in u or "len(dim)==1" in u or "max(dim.shape)==1" in u
-                or "max(dim.shape))==1" in u or "len(dim))==1" in u or "dim.size==1" in u)
+        for x in ast.walk(t):
+            if isinstance(x, ast.Call) and isinstance(x.func, ast.Name) and x.func.id == "isinstance" and len(x.args) == 2 and unparse(x.args[0]) == "dim":
+                ts = x.args[1].elts if isinstance(x.args[1], ast.Tuple) else [x.args[1]]
+                if any(unparse(y) in ("int", "float", "np.integer", "numbers.Integral", "numbers.Real", "np.floating") for y in ts):
+                    return True
+        return ("len(dim)==1" in u or "max(dim.shape)==1" in u or "max(dim.shape))==1" in u or "len(dim))==1" in u or "dim.size==1" in u)
     bad, sites = None, 0
     # only functions that expand the scalar against the size of an operand ([dim, N/dim]) are of this kind; permutation_operator /
     # swap_operator have no operand and document the scalar as the common local dimension of all subsystems
